@@ -31,7 +31,10 @@ CLAIMED = {
                      'error-parity statement is refuted by C03_error_parity_full_false (known finding). Error parity of tree_iter and the '
                      'reductions: correspondence + oracle.' + PARTIAL,
                 technique='Lean 4 proof (simulation between two traversals) + correspondence', ref='6 C03'),
-    'C04': dict(text='Proved: C04_path_of_accessor (accessor walk and path walk run in lock step: .path of the i-th accessor is the i-th path, any node '
+    'C04': dict(text='Proved: C04_paths_refines (paths() on the encoding of any shape with one entry per child is the tree-level listing pathsT: '
+                     'entries from the root to every leaf, in leaf order), C04_paths_count (one per leaf), C04_paths_of_flatten (holds for every '
+                     'treespec made by flatten), C04_paths_prefix_free (pairwise distinct and prefix-free when the child entries of every node are '
+                     'distinct); C04_path_of_accessor (accessor walk and path walk run in lock step: .path of the i-th accessor is the i-th path, any node '
                      'array), C04_path_of_accessor_leaf, C04_resolveEntryKind_not_auto. Accessor application to trees and codify/eval: oracle only.' + PARTIAL,
                 technique='Lean 4 proof (fuel induction over two index walkers) + correspondence', ref='6 C04'),
     'C05': dict(text='Proved about the model of ops.py: C05_calls_in_order, C05_calls_prefix, C05_prefix_failure_before_calls, '
